@@ -73,12 +73,13 @@ var rpcClasses = []rpcClass{
 	{"update-oversized-metadata", "error", "Update of a stored id with a 70000-byte metadata value; the item must stay"},
 	{"batch-insert-client-level", "ok", "BatchInsert whose items carry client-chosen levels -7, 2^30 and -1 (a wire field): the items are stored at levels the server drew"},
 	{"partition-batch-insert-client-level", "ok", "PartitionBatchInsert (node-to-node RPC, open to any client) whose items carry levels -7 and 2^30"},
+	{"cosine-zero-vector", "ok", "a cosine dataset of 250 items: insert and search the zero vector (every distance is NaN), then an ordinary insert"},
 	{"batch-duplicate-and-absent", "ok", "BatchUpdate / BatchRemove mixing duplicates and absent ids"},
 	{"delete-dataset-under-write-load", "ok", "25 x (create a dataset, write to it from three clients, delete it while they write)"},
 }
 
 func runRpc(c *Ctx) {
-	c.Stats.Rule = "one child process per request class (39 classes: malformed / truncated ids on every write RPC incl. the node-to-node PartitionBatch* RPCs, wrong and zero dimensions, zero partition / replica counts, unknown metric, k = 0 and k = 2^32-1, non-finite numbers, missing metadata, oversized batches, unknown ids) against a real single-node stack on disk, followed by a liveness probe and a restart that replays everything the requests left in the logs; every class is a distinct non-trivial case"
+	c.Stats.Rule = "one child process per request class (40 classes: malformed / truncated ids on every write RPC incl. the node-to-node PartitionBatch* RPCs, wrong and zero dimensions, zero partition / replica counts, unknown metric, k = 0 and k = 2^32-1, non-finite numbers, missing metadata, oversized batches, unknown ids) against a real single-node stack on disk, followed by a liveness probe and a restart that replays everything the requests left in the logs; every class is a distinct non-trivial case"
 	base := os.Getenv("VERIF_TMP")
 	if base == "" {
 		base = os.TempDir()
@@ -182,6 +183,18 @@ func childRpc(args []string) {
 	}
 	for i := 0; i < 6; i++ {
 		n.dmSrv.Insert(ctx, &pb.InsertRequest{DatasetId: dsId.Bytes(), Id: rid(i).Bytes(), Value: amath.Vector{float32(i), 1}, Metadata: map[string]string{"k": "v"}})
+	}
+	// enough items for the index to have upper levels (about one item in sixteen is above level 0): the
+	// greedy descent through them is part of every insert and search
+	if class == "non-finite-vectors" || class == "search-k-max" || class == "empty-vector" {
+		for b := 0; b < 3; b++ {
+			var items []*pb.BatchItem
+			for i := 0; i < 100; i++ {
+				k := 1000 + b*100 + i
+				items = append(items, &pb.BatchItem{Id: rid(k).Bytes(), Value: amath.Vector{float32(k%37) - 18, float32(k%11) + 0.5}})
+			}
+			n.dmSrv.BatchInsert(ctx, &pb.BatchRequest{DatasetId: dsId.Bytes(), Items: items})
+		}
 	}
 	d := cl.dataset(1, dsId)
 	pid := d.VerifPartitionAt(d.VerifOwnerIndex(rid(50))).Id()
@@ -331,6 +344,57 @@ func childRpc(args []string) {
 			}
 			_, err := n.dmSrv.Remove(ctx, &pb.RemoveRequest{DatasetId: dsId.Bytes(), Id: rid(31).Bytes()})
 			return report(err)
+		case "cosine-zero-vector":
+			meta, err := n.dsSrv.Create(ctx, &pb.Dataset{Dimension: 2, Space: pb.Space_Cosine, PartitionCount: 1, ReplicationFactor: 1})
+			if err != nil {
+				return report(err)
+			}
+			id := uuid.FromBytesOrNil(meta.GetId())
+			cl.injectClients(id)
+			waitFor(5*time.Second, func() bool { dd := cl.dataset(1, id); return dd != nil && dd.VerifPartitionAt(0).HasRaft() })
+			if dd := cl.dataset(1, id); dd != nil && dd.VerifPartitionAt(0).HasRaft() {
+				dd.VerifPartitionAt(0).Raft().VerifCampaign()
+			}
+			time.Sleep(200 * time.Millisecond)
+			for b := 0; b < 3; b++ {
+				var items []*pb.BatchItem
+				for i := 0; i < 84; i++ {
+					k := 2000 + b*100 + i
+					items = append(items, &pb.BatchItem{Id: rid(k).Bytes(), Value: amath.Vector{float32(k%37) - 18.5, float32(k%11) + 0.5}})
+				}
+				if _, err := n.dmSrv.BatchInsert(ctx, &pb.BatchRequest{DatasetId: id.Bytes(), Items: items}); err != nil {
+					return report(err)
+				}
+			}
+			short := func(f func(c context.Context) error) error {
+				c2, cancel := context.WithTimeout(ctx, 8*time.Second)
+				defer cancel()
+				return f(c2)
+			}
+			// the answers to the zero vector itself are not judged (its distances are NaN); what follows must work
+			short(func(c context.Context) error {
+				_, e := n.dmSrv.Insert(c, &pb.InsertRequest{DatasetId: id.Bytes(), Id: rid(2900).Bytes(), Value: amath.Vector{0, 0}})
+				return e
+			})
+			done := make(chan struct{})
+			go func() {
+				defer close(done)
+				defer func() { recover() }()
+				n.searchSrv.Search(&pb.SearchRequest{DatasetId: id.Bytes(), Query: amath.Vector{0, 0}, K: 3}, &fakeServerStream{ctx: ctx})
+			}()
+			select {
+			case <-done:
+			case <-time.After(8 * time.Second):
+				return "error a search for the zero vector in a cosine dataset does not return (8 s)"
+			}
+			if err := short(func(c context.Context) error {
+				_, e := n.dmSrv.Insert(c, &pb.InsertRequest{DatasetId: id.Bytes(), Id: rid(2901).Bytes(), Value: amath.Vector{1, 2}})
+				return e
+			}); err != nil {
+				return "error after the zero vector was inserted into a cosine dataset an ordinary insert fails: " + err.Error()
+			}
+			targetDs = id
+			return "ok"
 		case "empty-vector":
 			_, err := n.dmSrv.Insert(ctx, &pb.InsertRequest{DatasetId: dsId.Bytes(), Id: rid(40).Bytes()})
 			return report(err)
